@@ -849,6 +849,10 @@ def gen_env(rng):
         pts[0] = [float(Fraction(c)) for c in shells[0]["coord"]]
     arrays["pts"] = np.array(pts)
     arrays["P"] = psd(rng, n)
+    if n > 1 and rng.random() < 0.35:
+        # symmetric only to within the library's own tolerance (np.allclose: 1e-8 + 1e-5 |P|), as a matrix that went
+        # through float32 or a text file is: it must be accepted AND left alone (no "clean-up" of the caller's array)
+        arrays["P"][0, n - 1] += 3e-10 * (1.0 + abs(arrays["P"][0, n - 1]))
     pns = psd(rng, n)
     if n > 1:
         pns[0, n - 1] += 0.5
@@ -857,6 +861,8 @@ def gen_env(rng):
     arrays["Pns"] = pns
     arrays["T"] = np.array([[float(Fraction(rng.randint(-4, 4), 4)) for _ in range(n)] for _ in range(m)])
     arrays["Pm"] = psd(rng, m)
+    if m > 1 and rng.random() < 0.35:
+        arrays["Pm"][0, m - 1] += 3e-10 * (1.0 + abs(arrays["Pm"][0, m - 1]))
     arrays["T0"] = np.array([[float(Fraction(rng.randint(-4, 4), 4)) for _ in range(n0)] for _ in range(2)])
     k = rng.randint(1, 2)
     nc = [[float(rq(rng, 8, 2)) for _ in range(3)] for _ in range(k)]
